@@ -13,6 +13,9 @@ const (
 type TapeOpts struct {
 	AllowNop  bool // NOP entries may occur (deserialized / edited tapes)
 	StrictNop bool // every NOP's skip must land exactly on the next non-NOP entry (or tape end)
+	// NopNoOvershoot: every NOP's skip jumps over NOP entries only (it may land on the head of
+	// an adjacent gap, as two deletions next to each other leave it)
+	NopNoOvershoot bool
 }
 
 // CheckTape verifies the documented tape format. It returns nil or the first violated rule.
@@ -159,14 +162,14 @@ func CheckTape(tape []uint64, nStrings, nMessage int, o TapeOpts) error {
 			if payload < 1 || uint64(pos)+payload > uint64(n) {
 				return fmt.Errorf("entry %d: NOP skip %d leaves the tape (%d)", pos, payload, n)
 			}
-			if o.StrictNop {
+			if o.StrictNop || o.NopNoOvershoot {
 				end := pos + int(payload)
 				for j := pos + 1; j < end; j++ {
 					if byte(tape[j]>>tagShift) != 'N' {
 						return fmt.Errorf("entry %d: NOP skip %d jumps over live entry %d", pos, payload, j)
 					}
 				}
-				if end < n && byte(tape[end]>>tagShift) == 'N' {
+				if o.StrictNop && end < n && byte(tape[end]>>tagShift) == 'N' {
 					return fmt.Errorf("entry %d: NOP skip %d lands on another NOP at %d, not on the next live entry", pos, payload, end)
 				}
 			}
